@@ -394,6 +394,24 @@ func faultBases() []Session {
 	out = append(out, unhealthy(hs("", 3,
 		[]DOp{{Op: "exec", R: "r1"}, {Op: "exec", R: "r2"}, {Op: "awaitws", R: "r1"}, {Op: "awaitws", R: "r2"}, {Op: "aclose"}, {Op: "joinall"}, {Op: "jclose"}},
 		[]SOp{{Op: "expectws", R: "r1"}, {Op: "expectws", R: "r2"}, {Op: "expectdone"}, {Op: "done", R: "r1", X: 1}, {Op: "err", R: "r2"}, {Op: "done", R: "r2", X: 2}}), "f-close-pending"))
+	// results that carry debug logs: a text ending in a line end, one without a final line end, one of
+	// several lines; a damaged byte at the end of the text (or in its length) takes the final line
+	// end away while the message stays well-formed
+	out = append(out, unhealthy(hs("", 3,
+		[]DOp{{Op: "exec", R: "r1"}, {Op: "join", R: "r1"}, {Op: "exec", R: "r2"}, {Op: "exec", R: "r3"}, {Op: "joinall"}, {Op: "close"}},
+		[]SOp{{Op: "expectws", R: "r1"}, {Op: "done", R: "r1", X: 1, Logs: "first line\nsecond line\n"},
+			{Op: "expectws", R: "r2"}, {Op: "expectws", R: "r3"}, {Op: "done", R: "r3", X: 3, Logs: "no line end at all"},
+			{Op: "done", R: "r2", X: 2, Logs: "a\r\nb\n\nlast line without line end"}, {Op: "expectdone"}}), "f-logs"))
+	out = append(out, unhealthy(hs("", 1,
+		[]DOp{{Op: "exec", R: "r1"}, {Op: "join", R: "r1"}, {Op: "exec", R: "r2"}, {Op: "join", R: "r2"}, {Op: "close"}},
+		[]SOp{{Op: "expect", N: 2}, {Op: "done1", X: 1, Logs: "v1 log line\n"}, {Op: "expect", N: 3}, {Op: "done1", X: 2, Logs: "v1 without line end"}}), "f-logs-v1"))
+	// results nobody waits for: a result repeated after its run has ended, results and step-fatal
+	// errors for run IDs that were never started, before and between the real answers
+	out = append(out, unhealthy(hs("", 3,
+		[]DOp{{Op: "exec", R: "r1"}, {Op: "join", R: "r1"}, {Op: "exec", R: "r2"}, {Op: "exec", R: "r3"}, {Op: "joinall"}, {Op: "close"}},
+		[]SOp{{Op: "expectws", R: "r1"}, {Op: "done", R: "ghost", X: 9}, {Op: "done", R: "r1", X: 1}, {Op: "done", R: "r1", X: 1},
+			{Op: "expectws", R: "r2"}, {Op: "expectws", R: "r3"}, {Op: "err", R: "phantom", SF: true}, {Op: "done", R: "r3", X: 3}, {Op: "done", R: "r1", X: 1},
+			{Op: "sig", R: "ghost"}, {Op: "done", R: "r2", X: 2}, {Op: "expectdone"}}), "f-late-result"))
 	out = append(out, unhealthy(hs("", 1, []DOp{{Op: "exec", R: "r1"}, {Op: "join", R: "r1"}, {Op: "exec", R: "r2"}, {Op: "join", R: "r2"}, {Op: "close"}},
 		[]SOp{{Op: "expect", N: 2}, {Op: "done1", X: 1}, {Op: "expect", N: 3}, {Op: "done1", X: 2}}), "f-v1-serial-2"))
 	return out
@@ -647,6 +665,15 @@ func FaultJobs(rng *rand.Rand, thorough bool) []FaultJob {
 		out = append(out, FaultJob{Job{Session: leak, Transport: t, WriteFailAfter: 2, TimeoutMs: 3000}, "c08-wfail"})
 	}
 	return out
+}
+
+// SlowSessions (thorough tier): Close is called from another goroutine 200 ms into a run that takes
+// the server 6 s. Close does not cancel the run: it must wait - without a bound - until the read loop
+// has delivered the result; when it returns nil no goroutine started by the client may be left.
+func SlowSessions() []Session {
+	return []Session{hs("close-early-slow-run", 3,
+		[]DOp{{Op: "exec", R: "r1", To: true, From: true}, {Op: "awaitws", R: "r1"}, {Op: "sleep", N: 200}, {Op: "aclose"}, {Op: "join", R: "r1"}, {Op: "jclose"}},
+		[]SOp{{Op: "expectws", R: "r1"}, {Op: "expectdone"}, {Op: "sleep", N: 6000}, {Op: "sig", R: "r1"}, {Op: "done", R: "r1", X: 1}})}
 }
 
 // MarkerWriterNeedsMutex marks the findings of SignalEchoWitnesses.
